@@ -14,6 +14,7 @@ import OrsoVerif.Drv.C15
 import OrsoVerif.Drv.C17
 import OrsoVerif.Drv.C18
 import OrsoVerif.Drv.C19
+import OrsoVerif.Drv.C20
 
 open Wire
 
@@ -34,6 +35,7 @@ def dispatch (prop op : String) (args : List PyVal) : Option (List PyVal) :=
   | "C17" => Drv.C17.handle op args
   | "C18" => Drv.C18.handle op args
   | "C19" => Drv.C19.handle op args
+  | "C20" => Drv.C20.handle op args
   | _ => none
 
 def handle (toks : List String) : String :=
